@@ -131,7 +131,10 @@ def run_case(case, mods):
         inner.play(clock, 0)            # quant 0: start at the current beat (the default Quant is 1)
 
     outer.play()
-    main.process()
+    try:
+        main.process()
+    except Exception:          # building the OSC score can fail (e.g. negative times); the clock has run
+        pass
     for i, o in enumerate(out):
         if o is None:
             out[i] = 'none'
